@@ -77,7 +77,11 @@ def _list_slice(slize: Slice) -> List[Slice]:
         if slize.step == 1:
             return [slize]  # Already all good! Just make a one-element list.
         # Strided and reversed slices are not exportable as such. Break them into their bits.
-        return [slize.parent[idx] for idx in _selected(slize)]
+        # (Each of which may in turn be all of a one-bit Signal.)
+        rv = []
+        for idx in _selected(slize):
+            rv.extend(_list_slice(slize.parent[idx]))
+        return rv
 
     if isinstance(slize.parent, (PortRef, BundleRef)):
         # Slice of a (by now resolved) reference: slice its referent instead
@@ -129,7 +133,10 @@ def _resolve_slice(slize: Slice) -> Sliceable:
     Such cases create and return a Concatenation."""
 
     # Break out the slice elements in a list
-    ls = _list_slice(slize)
+    ls = []
+    for element in _list_slice(slize):
+        # A full-width slice resolves to its parent, which may be a (resolved, flat) Concat. Keep our list flat.
+        ls.extend(element.parts if isinstance(element, Concat) else [element])
     # And convert to either a single element or Concat
     if len(ls) == 1:  # Resolved to single Slice
         return ls[0]
